@@ -32,6 +32,9 @@ TRUSTED_BASE = [
     'class Ex that absorbs the float constants of the source with their decimal-literal value',
 ]
 ASSUMPTIONS = [
+    'the model\'s events are commander CALLS; that a call puts exactly its own packet on the wire whatever happened before on '
+    'the same Crazyflie object (Commander / HighLevelCommander are stateless) is checked on every run by the packet-level oracle '
+    '(real Commander over a recording send_packet, multi-flight histories) and proved per method by C08',
     'Python float arithmetic is idealised as exact rational arithmetic (decimal literals denote their decimal value); '
     'rounding is outside the theorems and is covered only by the float-mode oracle with tolerances',
     'math.sqrt and math.pi are parameters of the model: the arithmetic theorems assume sqrt(x)*sqrt(x) = x for the '
